@@ -24,7 +24,7 @@ BUDGET_S = {"quick": 240, "thorough": 2400}
 EXTRA_BUILDS = {"thorough": ["rel", "asan"]}
 GENERIC_REL = False  # own release stage below
 MIN_HITS = {
-    'quick': {"program": 141052, "allbytes": 1280, "random_tokens": 1920, "constructed": 810, "tx_bound": 448, "lib_err": 23925, "lib_ok": 116347, "post_error_state_checked": 23925, "step_vs_run": 140272},
+    'quick': {"program": 151419, "allbytes": 1280, "random_tokens": 1920, "constructed": 810, "tx_bound": 448, "lib_err": 23922, "lib_ok": 126717, "post_error_state_checked": 23922, "step_vs_run": 150639},
     'thorough': {"program": 1078522, "allbytes": 1536, "random_tokens": 614400, "constructed": 153624, "tx_bound": 76800, "lib_err": 694087, "lib_ok": 314920, "step_vs_run": 1009008},
 }
 HOSTILE = [b"", b"\x00", b"\x80", b"\x01", b"\x81", b"\x02", b"\x7f", b"\xff", b"\xff\xff\xff\x7f", b"\xff\xff\xff\xff", b"\x00\x00\x00\x80\x00", b"\xff" * 9, b"\x01\x00\x00\x00\x00\x00", bytes(33), b"\x02" + bytes(32), bytes(71), b"\x30\x06\x02\x01\x01\x02\x01\x01\x41"]
